@@ -273,28 +273,48 @@ for k in range(start, len(plan)):
 '''
 
 
-def build_ext(d, cases, options=None):
+def build_ext(d, cases, options=None, language="c++"):
     import yaml
 
     os.makedirs(d, exist_ok=True)
     opts = dict({"wrap_python": True, "wrap_c": False, "wrap_fortran": False, "PY_array_arg": "list", "PY_struct_arg": "class"}, **(options or {}))
     y, hpp, cpp = cgen.gen_library(cases, False, opts, ns=None)
     y["library"] = "psub"
-    y["cxx_header"] = "psub.hpp"
-    y["declarations"] += PCLS_YAML
+    if language == "c":
+        # the same library written in C (rows without references, std::string, classes)
+        from rt import libgen
+
+        def fix(n):
+            if isinstance(n, dict):
+                return {k: fix(v) for k, v in n.items()}
+            if isinstance(n, list):
+                return [fix(v) for v in n]
+            return libgen.to_c(n) if isinstance(n, str) else n
+        y["language"] = "c"
+        y["cxx_header"] = "psub.h"
+        y["declarations"] = fix(y["declarations"])
+        hpp = libgen.to_c(hpp).replace("#include <string>", "#include <stdbool.h>").replace("#include <vector>", "")
+        hpp = hpp.replace("struct Pt { int x; double y; };", "struct Pt { int x; double y; };\ntypedef struct Pt Pt;").replace("SUB_HPP", "PSUB_H")
+        cpp = libgen.to_c(cpp).replace('#include "sub.hpp"', '#include "psub.h"').replace("#include <cstring>", "#include <string.h>")
+        cpp = cpp.replace("#include <cstdio>", "#include <stdio.h>")
+        hname, sname = "psub.h", "psub.c"
+    else:
+        y["cxx_header"] = "psub.hpp"
+        y["declarations"] += PCLS_YAML
+        hpp = hpp.replace("SUB_HPP", "PSUB_HPP").replace("\n#endif", PCLS_HPP + "\n#endif")
+        cpp = cpp.replace('#include "sub.hpp"', '#include "psub.hpp"').replace("/*end*/", PCLS_CPP)
+        hname, sname = "psub.hpp", "psub.cpp"
     with open(os.path.join(d, "psub.yaml"), "w") as f:
         yaml.safe_dump(y, f, default_flow_style=False, sort_keys=False)
-    hpp = hpp.replace("SUB_HPP", "PSUB_HPP").replace("\n#endif", PCLS_HPP + "\n#endif")
-    cpp = cpp.replace('#include "sub.hpp"', '#include "psub.hpp"').replace("/*end*/", PCLS_CPP)
-    open(os.path.join(d, "psub.hpp"), "w").write(hpp)
-    open(os.path.join(d, "psub.cpp"), "w").write(cpp)
+    open(os.path.join(d, hname), "w").write(hpp)
+    open(os.path.join(d, sname), "w").write(cpp)
     out = os.path.join(d, "gen")
     os.makedirs(out, exist_ok=True)
     rc, so, se = shroudrun.run(["--outdir", out, "--logdir", out, os.path.join(d, "psub.yaml")])
     if rc != 0:
         return None, "shroud: " + se[-800:]
-    srcs = [os.path.join(d, "psub.cpp"), os.path.join(HERE, "vt.c")] + \
-           [os.path.join(out, f) for f in sorted(os.listdir(out)) if f.endswith(".cpp")]
+    srcs = [os.path.join(d, sname), os.path.join(HERE, "vt.c")] + \
+           [os.path.join(out, f) for f in sorted(os.listdir(out)) if f.endswith(".cpp") or f.endswith(".c")]
     objs = []
     for s in srcs:
         o = os.path.join(d, os.path.basename(s) + ".o")
